@@ -86,7 +86,7 @@ type Stats struct {
 	Samples                                  [][]string
 	ConfValidated                            int
 	confPaths                                [][]uint16
-	ConfRefusals                             int // refused operations appended to conformance paths
+	ConfRefusals                             int               // refused operations appended to conformance paths
 	Trace                                    map[string]string // path -> outcome and successor hash (TraceAll)
 }
 
